@@ -163,6 +163,7 @@ func runData(t *testing.T, c DataCase, r *rep.R) []problem {
 	if r != nil {
 		r.Add("evaluations", 1)
 		r.Add("data_cases", 1)
+		r.Add("transitions", 3)
 	}
 	if pan != nil {
 		return []problem{{"panic:data:" + cls + ":" + site(fmt.Sprint(pan)), fmt.Sprintf("%s: %s", c, rep.Short(fmt.Sprint(pan)))}}
